@@ -1,10 +1,14 @@
 SPECIFICATION Spec
 CONSTANTS
-  Interval = 4
+  Interval = 8
   MaxLen = 6
   Thresholds <- ThoroughThresholds
-  AnswerDelays = {0, 1}
+  AnswerDelays = {0, 2}
   DrainLens = {1, 2}
+  HsSlots <- GenHsSlots
+  CtxSlots <- GenCtxSlots
+  EnvMaxLen = 4
+  EnvProduct = TRUE
 INVARIANTS TypeOK InvAccuracy InvTiming InvSilentStop InvCounter InvCompleteness InvFinal InvGoneAtClose InvNoTickAfterUser InvGoneWhenClosing
 PROPERTIES NoPingAfterStop Terminates
 CHECK_DEADLOCK FALSE
